@@ -156,6 +156,7 @@ func runC08(c *Ctx) {
 		for _, f := range fs {
 			c.Hit("fault:" + f.Kind)
 		}
+		c08SharedCache(c, w2, refuse, g, cs)
 		res := expandFaulted(w2, refuse, o)
 		switch {
 		case res.Hang:
@@ -495,6 +496,65 @@ func runC10(c *Ctx) {
 				if len(c.Res.Samples) < 3 && len(refs) > 1 {
 					c.Sample(cs)
 				}
+			}
+		}
+	}
+}
+
+// c08SharedCache: the same verdicts must come out when the caller supplies ONE cache for a lenient pass followed
+// by a strict pass (ExpandSchemaWithBasePath), including for references that designate a whole document: a
+// failed fetch must not leave anything behind that turns the second failure into a success.
+func c08SharedCache(c *Ctx, w2 *refgraph.World, refuse map[string]bool, g *refgraph.Graph, cs map[string]interface{}) {
+	type probe struct {
+		name   string
+		schema string
+		bad    bool
+		whole  bool // a whole document read as a schema: only "refused or missing => error" is asserted (its content,
+		// read as schema keywords, may legitimately fail to decode or to resolve)
+	}
+	var probes []probe
+	// whole-document references to every document of the (unfaulted) layout, refused ones included
+	seen := map[string]bool{}
+	for k := range g.KindOf {
+		if !seen[k.Doc] {
+			seen[k.Doc] = true
+			_, present := w2.Docs[k.Doc]
+			probes = append(probes, probe{"whole document " + k.Doc, `{"type":"object","properties":{"p":{"$ref":` + quoteJSON(k.Doc) + `}}}`, !present || refuse[k.Doc], true})
+		}
+	}
+	// and the definitions of the root
+	if defs, ok := w2.Docs[w2.Root].Get("definitions"); ok {
+		for _, m := range defs.O {
+			a := w2.Unfold(w2.Root, "schema", m.V, 8)
+			probes = append(probes, probe{"definition " + m.K, m.V.Text(), strings.Contains(a, "<dangling:") || strings.Contains(a, "<bad-ref>"), false})
+		}
+	}
+	shared := newTCache(&tracer{})
+	for _, p := range probes {
+		for pass, cont := range []bool{true, false} {
+			var s spec.Schema
+			if json.Unmarshal([]byte(p.schema), &s) != nil {
+				break
+			}
+			var err error
+			pan, hang := timed(expWatchdog(), func() {
+				err = spec.ExpandSchemaWithBasePath(&s, shared, &spec.ExpandOptions{RelativeBase: w2.Root, ContinueOnError: cont, PathLoader: loaderFor(w2, nil, refuse)})
+			})
+			c.Hit("shared-cache-pass")
+			if pan != "" || hang {
+				c.Fail(Failure{Kind: "crash", Sig: "C04:panic-or-hang", What: pan, Case: cs})
+				continue
+			}
+			if pass == 1 {
+				// strict pass on a cache that has seen the lenient one
+				if p.bad && err == nil {
+					c.Fail(Failure{Kind: "oracle", Sig: "C08:silent-failure", What: "strict expansion of " + p.name + " on a cache already used by a lenient expansion returns no error although a $ref it has to follow is unresolvable", Case: cs, Impl: jsonOf(&s)})
+				}
+				if !p.bad && !p.whole && err != nil {
+					c.Fail(Failure{Kind: "oracle", Sig: "C08:spurious-error", What: "strict expansion of " + p.name + " on a cache already used by a lenient expansion fails although every $ref is resolvable: " + err.Error(), Case: cs})
+				}
+			} else if err != nil && !p.whole {
+				c.Fail(Failure{Kind: "oracle", Sig: "C08:error-despite-continue", What: "ContinueOnError is set but the expansion of " + p.name + " returned: " + err.Error(), Case: cs})
 			}
 		}
 	}
